@@ -1737,6 +1737,8 @@ EGLPNUM_TYPENAME_QSLIB_INTERFACE int EGLPNUM_TYPENAME_QSread_and_load_basis (
 	rval = EGLPNUM_TYPENAME_ILLlib_readbasis (p->lp, p->basis, filename);
 	CHECKRVALG (rval, CLEANUP);
 
+	p->factorok = 0;
+
 CLEANUP:
 
 	return rval;
